@@ -124,13 +124,24 @@ fn gen_msg(r: &mut Rng) -> Message {
     }
 }
 
-fn tcp_err(e: &TcpError) -> &'static str {
-    match e {
-        TcpError::MessageTooLarge { .. } => "too_large",
-        TcpError::InvalidFrame(m) if m.contains("zero-length") => "zero_length",
-        TcpError::InvalidFrame(m) if m.contains("empty v2") => "empty_v2",
-        TcpError::Io(io) if io.kind() == std::io::ErrorKind::UnexpectedEof => "short_read",
-        TcpError::Serialization(_) => "undecodable",
+/// Errors by VARIANT, never by message wording (BUILDING.md "Error canonicalisation", rule 1).
+/// `InvalidFrame(String)` has two producers, told apart by the OPERATION, not by the text: the frame
+/// readers raise it only for a zero length prefix (framing.rs read_frame* / read_frame_v2*), and
+/// `decode_payload_v2` only for an empty payload; the caller says which operation it ran.
+#[derive(Clone, Copy)]
+enum FrameOp {
+    Read,
+    DecodeV2,
+    Encode,
+}
+fn tcp_err(e: &TcpError, op: FrameOp) -> &'static str {
+    match (e, op) {
+        (TcpError::MessageTooLarge { .. }, _) => "too_large",
+        (TcpError::InvalidFrame(_), FrameOp::Read) => "zero_length",
+        (TcpError::InvalidFrame(_), FrameOp::DecodeV2) => "empty_v2",
+        (TcpError::InvalidFrame(_), FrameOp::Encode) => "other:InvalidFrame", // no encoder raises it
+        (TcpError::Io(io), _) if io.kind() == std::io::ErrorKind::UnexpectedEof => "short_read",
+        (TcpError::Serialization(_), _) => "undecodable",
         _ => "other",
     }
 }
@@ -146,7 +157,7 @@ fn real_read_all(codec: &LengthDelimitedCodec, stream: &[u8], rt: &tokio::runtim
                 Ok(None) => return (frames, "eof".to_string()),
                 Ok(Some(m)) => frames.push(Ok(bitcode::serialize(&m).unwrap())),
                 Err(e) => {
-                    let k = tcp_err(&e);
+                    let k = tcp_err(&e, FrameOp::Read);
                     if k == "undecodable" {
                         frames.push(Err(()));
                         let _ = before;
@@ -197,7 +208,7 @@ fn real_read_all_trickled(codec: &LengthDelimitedCodec, stream: &[u8], chunks: &
                 Ok(None) => return (frames, "eof".to_string()),
                 Ok(Some(m)) => frames.push(Ok(bitcode::serialize(&m).unwrap())),
                 Err(e) => {
-                    let k = tcp_err(&e);
+                    let k = tcp_err(&e, FrameOp::Read);
                     if k == "undecodable" {
                         frames.push(Err(()));
                         continue;
@@ -256,6 +267,10 @@ fn gen_bits(r: &mut Rng) -> u32 {
         _ => r.next_u64() as u32,
     }
 }
+/// WHICH check of `EmbeddingValidator::validate` refused: every refusal is the one variant
+/// `ChainError::InvalidEmbedding { reason: String }`, so the reason exists only as message text. C20 needs
+/// "accepted" vs "refused" (an accepted vector must not panic later), so the COMPARED verdict is `ok` /
+/// `invalid` (rule 2) and this reading of the text is a coverage statistic only (`sparse.validate.<reason>`).
 fn val_class(e: &tensor_chain::ChainError) -> &'static str {
     let t = e.to_string();
     if t.contains("dimension cannot be zero") { "zero_dim" }
@@ -274,7 +289,7 @@ fn stream_sparse(rep: &mut Report, m: &mut Model, root: &Rng, scale: u64) {
     {
         let sv = raw_sparse(4, &[0, 2], &[0x3F80_0000]);
         let v = EmbeddingValidator::new(65536, f32::INFINITY);
-        let verdict = match v.validate(&sv, "f") { Ok(()) => "ok", Err(e) => val_class(&e) };
+        let verdict = match v.validate(&sv, "f") { Ok(()) => "ok", Err(_) => "invalid" };
         let got = guarded(|| sv.get(2));
         if verdict == "ok" && got.is_err() {
             rep.violation(
@@ -317,7 +332,7 @@ fn stream_sparse(rep: &mut Report, m: &mut Model, root: &Rng, scale: u64) {
         let vs_f: Vec<f32> = vs.iter().map(|b| f32::from_bits(*b)).collect();
         let line = format!("sp_from_parts {dim} {} {}", show_u32s(&ps), show_u32s(&vs));
         let real = SparseVector::try_from_parts(dim, ps.clone(), vs_f.clone());
-        let imp = match &real { Ok(s) => format!("ok {}", show_sv(s)), Err(e) => if e.to_string().contains("exceeds") { "err dim".to_string() } else { "err oob".to_string() } };
+        let imp = match &real { Ok(s) => format!("ok {}", show_sv(s)), Err(tensor_store::SparseVectorError::DimensionExceeded { .. }) => "err dim".to_string(), Err(tensor_store::SparseVectorError::IndexOutOfBounds { .. }) => "err oob".to_string() };
         rep.compare("sparse.from_parts", || json!({"line": line}), &imp, &m.ask(&line));
         rep.hit(if real.is_ok() { "sparse.from_parts.ok" } else { "sparse.from_parts.oob" });
         if let Ok(s) = &real {
@@ -364,10 +379,18 @@ fn stream_sparse(rep: &mut Report, m: &mut Model, root: &Rng, scale: u64) {
         let sv2 = raw_sparse(dim2, &ps2, &vs2);
         let maxd = *r.pick(&[4usize, 8, 65536]);
         let v = EmbeddingValidator::new(maxd, f32::INFINITY);
-        let verdict = match v.validate(&sv2, "f") { Ok(()) => "ok", Err(e) => val_class(&e) };
+        let (verdict, why) = match v.validate(&sv2, "f") {
+            Ok(()) => ("ok", "ok"),
+            Err(e @ tensor_chain::ChainError::InvalidEmbedding { .. }) => ("invalid", val_class(&e)),
+            Err(_) => ("err:other_variant", "other"),
+        };
         let line = format!("sp_validate {maxd} {dim2} {} {}", show_u32s(&ps2), show_u32s(&vs2));
-        rep.compare("sparse.validate", || json!({"line": line}), verdict, &m.ask(&line));
-        rep.hit(&format!("sparse.validate.{verdict}"));
+        // the model names the refusing check; compared collapsed (see `val_class`)
+        let mo = m.ask(&line);
+        let mo_c = if mo == "ok" || mo == "bad-op" { mo.as_str() } else { "invalid" };
+        rep.compare("sparse.validate", || json!({"line": line, "model_reason": mo}), verdict, mo_c);
+        rep.hit(&format!("sparse.validate.{why}"));
+        rep.hit(&format!("sparse.validate.model.{mo}"));
         if verdict == "ok" {
             let td = guarded(|| sv2.to_dense());
             let gets = guarded(|| (0..dim2).map(|i| sv2.get(i).to_bits()).collect::<Vec<_>>());
@@ -510,14 +533,14 @@ fn main() {
                     stream.extend_from_slice(&f);
                     format!("ok {}", hex(&f))
                 }
-                Err(e) => format!("err {}", tcp_err(&e)),
+                Err(e) => format!("err {}", tcp_err(&e, FrameOp::Encode)),
             };
             rep.hit(if imp.starts_with("ok") { "frame.enc_ok" } else { "frame.enc_too_large" });
             rep.compare("frame.encode", || json!({"max": max, "payload": hex(&payload)}), &imp, &m.ask(&format!("frame_enc {max} {}", hex(&payload))));
             // v2 without compression
             let imp2 = match codec.encode_v2(&msg) {
                 Ok(f) => format!("ok {}", hex(&f)),
-                Err(e) => format!("err {}", tcp_err(&e)),
+                Err(e) => format!("err {}", tcp_err(&e, FrameOp::Encode)),
             };
             rep.compare("frame.encode_v2", || json!({"max": max, "payload": hex(&payload)}), &imp2, &m.ask(&format!("frame_enc2 {max} 0 {}", hex(&payload))));
         }
@@ -639,7 +662,7 @@ fn main() {
         let n = r.below(4) as usize;
         let p = r.bytes(n);
         let imp = match codec.decode_payload_v2(&p) {
-            Err(e) if tcp_err(&e) == "empty_v2" => "err empty_v2".to_string(),
+            Err(e) if tcp_err(&e, FrameOp::DecodeV2) == "empty_v2" => "err empty_v2".to_string(),
             _ => format!("ok {} {}", p.first().map_or(0, |b| b & 1), hex(p.get(1..).unwrap_or(&[]))),
         };
         // only the empty/non-empty decision and the flag split are compared (bitcode/lz4 opaque)
@@ -680,7 +703,7 @@ fn main() {
         let real = codec.encode_v2(&msg);
         let imp = match &real {
             Ok(f) => format!("ok {}", hex(f)),
-            Err(e) => format!("err {}", tcp_err(e)),
+            Err(e) => format!("err {}", tcp_err(e, FrameOp::Encode)),
         };
         let line = format!("frame_enc2c {max} {} {min_size} {method_flag} {} {}", u8::from(enabled && cfg_enabled(&codec)), hex(&ser), hex(&comp));
         rep.compare("frame.encode_v2c", || json!({"max": max, "enabled": enabled, "min_size": min_size, "method_flag": method_flag, "ser_len": ser.len(), "comp_len": comp.len(), "kind": kind}), &imp, &m.ask(&line));
